@@ -27,7 +27,9 @@ EXPLANATION = (
     ' (R13) one conversion route: from_pylist(records, schema=...) only - no cast / schema-less rebuild in the write path.'
     " (R14) the Iceberg -> Arrow type table is exact (timestamp('us'), int32 / int64, ...); (R15) no one-shot iterable is consumed in a loop it was not created in."
     ' (R16) a zip-based pairwise comparison also compares the lengths; R12 requires the declared-type test to cover optional fields too.'
-    ' R8: every file of a batch is checked (the per-file loop of append_files / its batch validator is left only when exhausted or by a raise); R2 reads a batch validator that loops over the files itself.')
+    ' R8: every file of a batch is checked (the per-file loop of append_files / its batch validator is left only when exhausted or by a raise); R2 reads a batch validator that loops over the files itself.'
+    " R14 also checks that the writer's and the validator's tables agree: every type the Iceberg -> Arrow table maps to a whole-number Arrow type (integers, dates, times, timestamps with or without zone) is in the set the strict validator screens for fractional floats."
+)
 NOT_DECIDED = ("value-level round trip through Arrow/Parquet for every type and value class; 'mis-filter' in general; what "
                "pyarrow accepts for a declared type")
 
